@@ -467,3 +467,11 @@ def r6(case, rec):
         with dadi_call('Demes.SFS with permuted samples'):
             bp = dadi.Demes.SFS(g, [sampled[i] for i in perm], ns, pts)
         require_close(data(bp), np.transpose(data(base), perm), TOL, '%s with sampled demes reversed' % case['yaml'], rec, key='example graphs order')
+    # Spectrum.from_demes given the YAML file's name (a str) or the loaded graph, one grid size or three (extrapolated)
+    with dadi_call('Spectrum.from_demes(path) / (graph)'):
+        by_path = dadi.Spectrum.from_demes(path, list(sampled), ns, [pts, pts + 2, pts + 4])
+        by_graph = dadi.Spectrum.from_demes(g, list(sampled), ns, [pts, pts + 2, pts + 4])
+        one = dadi.Spectrum.from_demes(path, list(sampled), ns, pts)
+    require_close(data(by_path), data(by_graph), 1e-12, 'from_demes(%s as a file name) vs from_demes(loaded graph)' % case['yaml'], rec, key='path vs graph')
+    require_close(data(one), data(base), TOL, 'from_demes(%s, pts=%d) vs Demes.SFS' % (case['yaml'], pts), rec, key='from_demes vs Demes.SFS')
+    require(list(by_path.pop_ids) == [str(x) for x in sampled], 'from_demes labels %r, sampled demes %r' % (by_path.pop_ids, sampled))
